@@ -103,6 +103,32 @@ func ruleC13R1(r *Run) {
 			}
 		}
 	}
+	// offset form: copy(tmp[:], input[off:]) with off = 0, 8, 16, … while off < len(input)
+	var offPhi *ssa.Phi
+	if ssl, ok := src.(*ssa.Slice); ok && !okSrc && ssl.High == nil && ssl.Low != nil && p.resolve(ssl.X) == ssa.Value(input) {
+		if op, ok := p.resolve(ssl.Low).(*ssa.Phi); ok && op.Block() == loop.Header && isArr {
+			okOff := true
+			for i, e := range op.Edges {
+				er := p.resolve(e)
+				if loop.Header.Dominates(op.Block().Preds[i]) {
+					bo, ok := er.(*ssa.BinOp)
+					step := int64(-1)
+					if ok && bo.Op == token.ADD && p.resolve(bo.X) == ssa.Value(op) {
+						step, _ = constInt(p.resolve(bo.Y))
+					}
+					if step != at.Len() {
+						okOff = false
+						r.Fail("checkFuzz#advance", op.Pos(), "the input offset advances to "+p.expr(er)+" per word (expected + the size of the decoded array)")
+					}
+				} else if c, ok := constInt(er); !ok || c != 0 {
+					okOff = false
+				}
+			}
+			if okOff {
+				okSrc, offPhi = true, op
+			}
+		}
+	}
 	r.Check("checkFuzz#copy.source", cp.Instr.Pos(), okSrc, "copies from the remaining input, which advances by the bytes copied", "the copy source is not the remaining input advancing by the copied byte count: "+p.expr(src))
 	// loop condition len(input) > 0
 	okCond := false
@@ -110,6 +136,14 @@ func ruleC13R1(r *Run) {
 		rl := p.relOf(g)
 		if isPhi && ((rl.X == "builtin:len("+p.expr(ph)+")" && rl.Op == ">" && rl.Y == "0") || (rl.X == "builtin:len("+p.expr(ph)+")" && rl.Op == "!=" && rl.Y == "0")) {
 			okCond = true
+		}
+	}
+	if offPhi != nil {
+		for _, g := range guardsOf(d.Instr.Block()) {
+			rl := p.relOf(g)
+			if rl.X == p.expr(offPhi) && rl.Op == "<" && rl.Y == "builtin:len($input)" {
+				okCond = true
+			}
 		}
 	}
 	r.Check("checkFuzz#loop-cond", loop.Header.Instrs[0].Pos(), okCond, "the loop runs while len(input) > 0", "the decode loop is not guarded by len(input) > 0")
